@@ -232,6 +232,12 @@ CORE = [
        'value': [{'lower': 'c', 'fields': [], 'name': 'ix_lower_c',
                   'as_list': True},
                  {'fields': ['b', 'a'], 'name': 'ix_ba'}]}]),
+    # three custom field classes of the project are added: the hinted
+    # evolution has to import each of them
+    ({},
+     [{'op': 'add_field', 'app': 'app1', 'model': 'A', 'name': 't%d' % k,
+       'fdef': {'kind': kind, 'max_length': 10, 'null': True}}
+      for k, kind in enumerate(['TagField', 'CodeField', 'NoteField'])]),
     # a model owning several many-to-many tables is deleted
     ({'__two_m2m__': True},
      [{'op': 'delete_model', 'app': 'app1', 'model': 'A'}]),
